@@ -32,7 +32,7 @@ def run(ctx, replay=None):
     env = dict(os.environ, TSAN_OPTIONS='halt_on_error=0 exitcode=66 report_signal_unsafe=0')
     concrete = {}
     runs = 0
-    for kind in ['vector', 'list', 'tree', 'hash', 'listtbl']:
+    for kind in ['twotables', 'vector', 'list', 'tree', 'hash', 'listtbl']:
         for rep in range(3 if quick else 20):
             T, K = (3, 120) if rep % 2 == 0 else (4, 60)
             sd = ctx.seed * 100 + rep
@@ -44,14 +44,23 @@ def run(ctx, replay=None):
                 ctx.cov['evaluations'] += 1
                 ctx.count('%s:%s' % (which, kind))
                 txt = o.decode('latin1') + er.decode('latin1')
-                if 'ThreadSanitizer: data race' in txt:
+                # the tree's global statistics counters (_q_treetbl_flip_color_cnt, _q_treetbl_rotate_left_cnt, ...) are bumped by
+                # every table without synchronisation: a race on debugging statistics, not on container state - reports whose
+                # location is one of those globals are set aside (and counted)
+                blocks = [b for b in txt.split('==================') if 'ThreadSanitizer: data race' in b]
+                benign = [b for b in blocks if re.search(r"Location is global '_q_treetbl_\w+_cnt'", b)]
+                if benign:
+                    ctx.count('tsan-reports-on-statistics-counters-set-aside', len(benign))
+                txt_real = '=================='.join(b for b in blocks if b not in benign)
+                if 'ThreadSanitizer: data race' in txt_real:
+                    txt = txt_real
                     m = re.search(r'data race.*?\n(?:.*\n){0,12}?\s+#0 (\S+)', txt)
                     fn = re.findall(r'#\d+ (q\w+) ', txt)
                     sig = {'container': kind, 'observed': 'data-race', 'function': (fn[0] if fn else '?')}
                     if ctx.report('race', sig, 'data race on %s state in %s' % (kind, sig['function']),
                                   {'cmd': '%s %s %d %d %d (ThreadSanitizer build)' % ('h_conc', kind, T, K, sd), 'report': txt[:3000]}):
                         concrete[kind] = True
-                elif rc != 0:
+                elif rc != 0 and not (rc == 66 and benign and o.decode('latin1').strip().endswith(tuple(['OK %s' % kind, 'OK %s T=%d K=%d' % (kind, T, K)]))):
                     line = (o.decode('latin1').strip().splitlines() or ['(no output, exit %d)' % rc])[-1]
                     sig = {'container': kind, 'observed': 'not-linearizable' if line.startswith('FAIL') else 'crash'}
                     if ctx.report('schedule', sig, 'concurrent run on %s: %s' % (kind, line[:200]),
